@@ -70,6 +70,10 @@ impl Executor for StatefulExecutor {
         context: &ExecutionContext,
     ) -> Result<Vec<Output>> {
         // a temporary directory, that will be used to copy state in between the executions
+        #[cfg(feature = "verif_sim")]
+        crate::verif_sim::fs_fault("exec:state-dir")
+            .context("generate temporary output directory")
+            .map_err(|err| ExecutionError::aborted(err, None))?;
         let state_directory = TempDir::with_prefix_in(".state.", &context.temp_directory)
             .context("generate temporary output directory")
             .map_err(|err| ExecutionError::aborted(err, None))?;
